@@ -10,7 +10,7 @@ use crate::prng::Rng;
 use crate::props::c04::{parse_worker_args, sup_cfg, worker_loop, WorkerArgs};
 use crate::refimpl::robj::{RDoc, RObj};
 use crate::util::*;
-use lopdf::Document;
+use lopdf::{Document, Object};
 use serde_json::{json, Map, Value};
 use std::path::Path;
 
@@ -287,6 +287,43 @@ pub fn gen_case(seed: u64, shard: u64, index: u64) -> TCase {
     TCase { model: doc, expect: None, label: format!("malformed/{}", label) }
 }
 
+/// the graph of Kids references reachable from the catalog's Pages node, every reference counted: a tree iff no
+/// object is referred to twice and the root is not referred to at all
+fn kids_form_a_tree(doc: &Document) -> bool {
+    let Ok(root) = doc.catalog().and_then(|c| c.get(b"Pages")).and_then(Object::as_reference) else { return false };
+    let mut indeg: std::collections::HashMap<(u32, u16), u32> = std::collections::HashMap::new();
+    let mut stack = vec![root];
+    let mut visited = std::collections::HashSet::new();
+    while let Some(id) = stack.pop() {
+        if !visited.insert(id) {
+            return false;
+        }
+        let Ok(d) = doc.get_dictionary(id) else { continue };
+        // Kids directly or behind (a short chain of) references
+        let mut kids = d.get(b"Kids").ok();
+        let mut hops = 0;
+        while let Some(Object::Reference(r)) = kids {
+            hops += 1;
+            if hops > 8 {
+                return false;
+            }
+            kids = doc.objects.get(r);
+        }
+        let Some(Object::Array(a)) = kids else { continue };
+        for k in a {
+            if let Object::Reference(kid) = k {
+                let e = indeg.entry(*kid).or_insert(0);
+                *e += 1;
+                if *e > 1 || *kid == root {
+                    return false;
+                }
+                stack.push(*kid);
+            }
+        }
+    }
+    true
+}
+
 fn report(sig: &str, what: String) {
     crate::props::oracle_report(sig, what);
 }
@@ -318,6 +355,15 @@ pub fn check(doc: &Document, expect: &Option<Vec<(u32, u16)>>) {
                 if !ok {
                     report("C12/malformed/non-page-yielded", format!("page_iter() yielded {:?}, which is not a Page dictionary", id));
                     break;
+                }
+            }
+            // where the Kids references reachable from the root form a tree (no node listed twice, no cycle), no
+            // page can be reached along two paths: a repeated id is then an enumeration error, however malformed
+            // the single nodes are
+            if kids_form_a_tree(doc) {
+                let mut seen = std::collections::HashSet::new();
+                if let Some(dup) = got.iter().find(|id| !seen.insert(**id)) {
+                    report("C12/malformed/page-yielded-twice", format!("page_iter() yielded {:?} twice although every node is listed once in the tree", dup));
                 }
             }
             if got.len() > doc.objects.len() {
@@ -376,7 +422,7 @@ pub fn run(cfg: &RunCfg) -> (PropMeta, ShardOut, Map<String, Value>) {
     );
     let meta = PropMeta {
         level: "exploration",
-        rule: "random page trees (depth 0..255, fan-out 0..40, bushy / deep-thin / wide / empty-intermediate shapes, pages and nodes interleaved, object ids shuffled so that id order differs from page order, Kids held directly, behind a reference or a chain of references, pages now and then carrying stray Kids / Count entries, up to 20,000 nodes): page_iter() must equal the model's depth-first leaf order and get_pages() must number it 1..n. One case in four is a malformed variant (kid cycles, junk kids, missing/wrong Type, dangling kids, absurd Count, shared kids): enumeration must terminate within the CPU budget without panic/abort and yield only Page dictionaries. Cases run in isolated workers under the process monitor. distinct = distinct documents.".into(),
+        rule: "random page trees (depth 0..255, fan-out 0..40, bushy / deep-thin / wide / empty-intermediate shapes, pages and nodes interleaved, object ids shuffled so that id order differs from page order, Kids held directly, behind a reference or a chain of references, pages now and then carrying stray Kids / Count entries, up to 20,000 nodes): page_iter() must equal the model's depth-first leaf order and get_pages() must number it 1..n. One case in four is a malformed variant (kid cycles, junk kids, missing/wrong Type, dangling kids, absurd Count, shared kids): enumeration must terminate within the CPU budget without panic/abort and yield only Page dictionaries, none of them twice where the Kids references form a tree. Cases run in isolated workers under the process monitor. distinct = distinct documents.".into(),
         assumptions: vec!["depth counts Pages levels below the root; the documented limit is 256".into()],
         exhaustive: false,
         min_distinct: 500,
